@@ -421,6 +421,10 @@ impl<'a, W: 'static, R: 'static, T: 'static> RuntimeScope<'a, W, R, T> {
                 let mut args = args;
                 let mut recursion_depth = 0_usize;
                 loop {
+                    // an erroring argument (the leftmost one) is the result of the call
+                    if let Some(Err(e)) = args.iter().find(|a| a.is_err()) {
+                        break Ok(TailedEvalResult::Value(Err(e.clone())));
+                    }
                     let scope =
                         Self::from_template(template.clone(), Some(self), rt.clone(), args)?;
                     let v = scope.eval(output.as_ref(), rt.clone(), true);
